@@ -1,24 +1,38 @@
 /-
   C19 — "a one-pixel triangle outline consists of its three edge lines": the join code at stroke
   width 1. The triangle scanline code (`edge_intersections`) builds, for every edge, a
-  `ThickSegment` from two `LineJoin::from_points(.., 1, offset)` and intersects it with the row.
-  Proved here for the centre alignment (`StrokeOffset::None`, the default of
-  `PrimitiveStyle::with_stroke`): that segment is a skeleton segment and its scanline is the
-  Bresenham intersection of the plain edge `Line(v[i+1], v[i+2])` - for every join kind, without
-  rounding (the edge lines of a width-1 stroke are the lines themselves and meet exactly in the
-  shared vertex). Lemmas: EG.Lemmas.JoinsWidth1. `skeleton_seg_is_join_code` identifies that scanline
-  with the parameter `skeletonSeg` of the triangle outline model, over which the merge of the three
-  edge scanlines per row is proved (`outline_is_edge_lines`, Props/C19/Triangle.lean).
+  `ThickSegment` from two `LineJoin::from_points(.., 1, offset)` and intersects it with the row;
+  `ScanlineIntersections::new` asks the join code whether the stroke has collapsed
+  (`is_collapsed(1, offset) && offset == Right`).
+  Proved here, for ALL three alignments (`StrokeOffset::None / Left / Right` = `Center / Outside /
+  Inside`): `Line::extents(1, _)` is the line itself twice (for Left / Right: the last parallel of
+  one side is the centre line), every corner of a width-1 join is its middle vertex - for every
+  join kind, without rounding -, the segment is a skeleton segment and its scanline is the
+  Bresenham intersection of the plain edge `Line(v[i+1], v[i+2])`; a width-1 join is never
+  `Degenerate`, and `is_collapsed(1, _)` is `area_doubled <= 0`.
+  Lemmas: EG.Lemmas.JoinsWidth1, JoinsBBoxWidth1Off, JoinsWidth1Align.
+  `skeleton_seg_is_join_code` identifies that scanline with the parameter `skeletonSeg` of the
+  triangle outline model, `collapsed_flag_is_join_code` the flag with `Triangle.collapsedFlag1`
+  (EG/Model/TriangleAligned.lean); over these two the outline is proved to be the three edge lines
+  (`outline_is_edge_lines`, `outline_all_alignments`, Props/C19/Triangle.lean).
 -/
 import EG.Lemmas.JoinsWidth1
+import EG.Lemmas.JoinsWidth1Align
 import EG.Model.ThickPolyline
 import EG.Model.Triangle
+import EG.Model.ThickTriangle
+import EG.Model.TriangleAligned
 namespace EG.C19.Joins
 open EG EG.Joins
 
 /-- `Line::extents(1, StrokeOffset::None)` is the line itself, twice. -/
 theorem extents_width1 (l : Line) : extents l 1 .none = some (l, l) :=
   extents_width1_none l
+
+/-- `Line::extents(1, offset)` is the line itself, twice, for every stroke offset (`Left` / `Right`
+take the last parallel of one side: with thickness 1 that is the centre line). -/
+theorem extents_width1_any (l : Line) (off : Thick.StrokeOffset) : extents l 1 off = some (l, l) :=
+  EG.Joins.extents_width1 l off
 
 /-- Every corner of a width-1 join is its middle vertex (guard: the vertex is an `i32` point, so
 the cast of the exact intersection does not saturate). -/
@@ -29,15 +43,28 @@ theorem join_width1_corners (a m b : Pt) (hx : inI32 m.x) (hy : inI32 m.y) :
 
 example : inI32 (⟨-1, 5⟩ : Pt).x ∧ inI32 (⟨-1, 5⟩ : Pt).y := by decide
 
-/-- The thick segment of one triangle / polyline edge at stroke width 1 is the thin edge line:
-it is a skeleton segment and paints, in every row, the Bresenham intersection of `Line(m1, m2)`. -/
-theorem one_pixel_segment_is_edge_line (a m1 m2 b : Pt) (h1x : inI32 m1.x) (h1y : inI32 m1.y)
-    (h2x : inI32 m2.x) (h2y : inI32 m2.y) :
-    ∃ j1 j2, LineJoin.fromPoints a m1 m2 1 .none = some j1 ∧
-      LineJoin.fromPoints m1 m2 b 1 .none = some j2 ∧
+/-- The same for every stroke offset. -/
+theorem join_width1_corners_any (a m b : Pt) (off : Thick.StrokeOffset) (hx : inI32 m.x) (hy : inI32 m.y) :
+    ∃ j, LineJoin.fromPoints a m b 1 off = some j ∧
+      j.firstEdgeEnd = ⟨m, m⟩ ∧ j.secondEdgeStart = ⟨m, m⟩ ∧ j.isDegenerate = false := by
+  refine ⟨join1 a m b, fromPoints_width1_eq a m b off, (join1_corners a m b hx hy).1,
+    (join1_corners a m b hx hy).2, join1_not_degenerate a m b⟩
+
+example : inI32 (⟨-1, 5⟩ : Pt).x ∧ inI32 (⟨-1, 5⟩ : Pt).y := by decide
+
+/-- The thick segment of one triangle / polyline edge at stroke width 1 is the thin edge line, for
+every stroke offset: it is a skeleton segment and paints, in every row, the Bresenham intersection
+of `Line(m1, m2)`. -/
+theorem one_pixel_segment_is_edge_line (a m1 m2 b : Pt) (off : Thick.StrokeOffset) (h1x : inI32 m1.x)
+    (h1y : inI32 m1.y) (h2x : inI32 m2.x) (h2y : inI32 m2.y) :
+    ∃ j1 j2, LineJoin.fromPoints a m1 m2 1 off = some j1 ∧
+      LineJoin.fromPoints m1 m2 b 1 off = some j2 ∧
       (ThickSegment.mk j1 j2).isSkeleton = true ∧
       ∀ y, (ThickSegment.mk j1 j2).intersection y = bint (Scanline.newEmpty y) ⟨m1, m2⟩ :=
-  segment_width1 a m1 m2 b h1x h1y h2x h2y
+  segment_width1_off a m1 m2 b off h1x h1y h2x h2y
+
+example : inI32 (⟨-5, -4⟩ : Pt).x ∧ inI32 (⟨-5, -4⟩ : Pt).y ∧ inI32 (⟨-5, -1⟩ : Pt).x ∧
+    inI32 (⟨-5, -1⟩ : Pt).y := by decide
 
 -- the three edges of the triangle (-5,-4), (-5,-1), (-1,-4) in row -3
 example : (do
@@ -45,10 +72,24 @@ example : (do
     let j2 ← LineJoin.fromPoints ⟨-5, -4⟩ ⟨-5, -1⟩ ⟨-1, -4⟩ 1 .none
     pure ((ThickSegment.mk j1 j2).intersection (-3))) =
     some (bint (Scanline.newEmpty (-3)) ⟨⟨-5, -4⟩, ⟨-5, -1⟩⟩) := by decide
+-- the same edge with `StrokeOffset::Right` (Inside) and `StrokeOffset::Left` (Outside)
+example : (do
+    let j1 ← LineJoin.fromPoints ⟨-1, -4⟩ ⟨-5, -4⟩ ⟨-5, -1⟩ 1 .right
+    let j2 ← LineJoin.fromPoints ⟨-5, -4⟩ ⟨-5, -1⟩ ⟨-1, -4⟩ 1 .right
+    pure ((ThickSegment.mk j1 j2).intersection (-3))) =
+    some (bint (Scanline.newEmpty (-3)) ⟨⟨-5, -4⟩, ⟨-5, -1⟩⟩) := by decide
+example : (do
+    let j1 ← LineJoin.fromPoints ⟨-1, -4⟩ ⟨-5, -4⟩ ⟨-5, -1⟩ 1 .left
+    let j2 ← LineJoin.fromPoints ⟨-5, -4⟩ ⟨-5, -1⟩ ⟨-1, -4⟩ 1 .left
+    pure ((ThickSegment.mk j1 j2).intersection (-3))) =
+    some (bint (Scanline.newEmpty (-3)) ⟨⟨-5, -4⟩, ⟨-5, -1⟩⟩) := by decide
 
 /-- A one-pixel polyline: `draw` is one `draw_iter` call with `points()`, and `pixels()` is
-`points()` (the `Thin` arm of `StyledPixelsIterator`); the union-of-segments claim about
-`points()` itself is `EG.C19.polyline_points` (Props/C19/Polyline.lean). -/
+`points()` (the `Thin` arm of `StyledPixelsIterator`) - definitional, these are the `1 =>` arms of
+the model as of the source. The picture on both targets and the `translate` field:
+`EG.C19.one_pixel_polyline_picture`, `one_pixel_polyline_picture_translate`; the union-of-segments
+claim about `points()` itself: `EG.C19.polyline_points`, `polyline_point_set`
+(Props/C19/Polyline.lean). -/
 theorem one_pixel_polyline_is_points (pl : Polyline) :
     pixels pl 1 = some (Polyline.points pl) ∧
     (match drawStyled pl 1 with | some (.drawIter pts) => pts = Polyline.points pl | _ => False) :=
@@ -62,22 +103,24 @@ theorem joins_bint_eq_scanline_bint (s : Scanline) (l : Line) : Joins.bint s l =
   cases (if l.start.y ≤ l.stop.y then decide (l.start.y ≤ s.y ∧ s.y ≤ l.stop.y)
     else decide (l.stop.y ≤ s.y ∧ s.y ≤ l.start.y)) <;> rfl
 
-/-- **The model parameter `skeletonSeg` of the triangle outline model IS the join code at width 1**:
-for edge `idx` of a triangle, `edge_intersections` builds
-`ThickSegment::new(LineJoin::from_points(v[idx], v[idx+1], v[idx+2], 1, None),
-                   LineJoin::from_points(v[idx+1], v[idx+2], v[idx+3], 1, None))`;
+/-- **The model parameter `skeletonSeg` of the triangle outline model IS the join code at width 1,
+for every stroke offset** (`None` = Center, `Left` = Outside, `Right` = Inside): for edge `idx` of a
+triangle, `edge_intersections` builds
+`ThickSegment::new(LineJoin::from_points(v[idx], v[idx+1], v[idx+2], 1, off),
+                   LineJoin::from_points(v[idx+1], v[idx+2], v[idx+3], 1, off))`;
 that segment is a skeleton segment and its `intersection(y)` is `Triangle.skeletonSeg t idx y`, the
-function over which `outline_is_edge_lines` (Props/C19/Triangle.lean) is proved. Guard: the vertices
-are `i32` points (the cast of the exact join intersection does not saturate). -/
-theorem skeleton_seg_is_join_code (t : Triangle) (idx : Nat)
+function over which `outline_is_edge_lines` / `outline_all_alignments` (Props/C19/Triangle.lean) are
+proved. Guard: the vertices are `i32` points (the cast of the exact join intersection does not
+saturate). -/
+theorem skeleton_seg_is_join_code (t : Triangle) (idx : Nat) (off : Thick.StrokeOffset)
     (h : ∀ i, inI32 (t.vertex i).x ∧ inI32 (t.vertex i).y) :
     ∃ j1 j2,
-      LineJoin.fromPoints (t.vertex idx) (t.vertex (idx + 1)) (t.vertex (idx + 2)) 1 .none = some j1 ∧
-      LineJoin.fromPoints (t.vertex (idx + 1)) (t.vertex (idx + 2)) (t.vertex (idx + 3)) 1 .none = some j2 ∧
+      LineJoin.fromPoints (t.vertex idx) (t.vertex (idx + 1)) (t.vertex (idx + 2)) 1 off = some j1 ∧
+      LineJoin.fromPoints (t.vertex (idx + 1)) (t.vertex (idx + 2)) (t.vertex (idx + 3)) 1 off = some j2 ∧
       (ThickSegment.mk j1 j2).isSkeleton = true ∧
       ∀ y, (ThickSegment.mk j1 j2).intersection y = t.skeletonSeg idx y := by
-  obtain ⟨j1, j2, e1, e2, hs, hi⟩ := segment_width1 (t.vertex idx) (t.vertex (idx + 1))
-    (t.vertex (idx + 2)) (t.vertex (idx + 3)) (h _).1 (h _).2 (h _).1 (h _).2
+  obtain ⟨j1, j2, e1, e2, hs, hi⟩ := segment_width1_off (t.vertex idx) (t.vertex (idx + 1))
+    (t.vertex (idx + 2)) (t.vertex (idx + 3)) off (h _).1 (h _).2 (h _).1 (h _).2
   refine ⟨j1, j2, e1, e2, hs, fun y => ?_⟩
   rw [hi y, joins_bint_eq_scanline_bint]
   rfl
@@ -88,6 +131,72 @@ example : ∀ i, inI32 ((⟨⟨-5, -4⟩, ⟨-5, -1⟩, ⟨-1, -4⟩⟩ : Triang
   unfold Triangle.vertex
   split <;> decide
 
--- [V] the one-pixel outline with Inside / Outside alignment (StrokeOffset::Right / Left: `extents` takes the last parallel of one side) is the same three edge lines: carried by correspondence + oracle only
+/-! ## `is_collapsed` at stroke width 1 -/
+
+/-- **`Triangle::is_collapsed(1, offset)` is `area_doubled <= 0`**, for every stroke offset and
+every triangle with `i32` vertices: no width-1 join is `Degenerate`, the inner point of each join is
+its vertex, the "opposite edge" `extents(1, offset).1` is the plain opposite edge, and the signed
+distance of the vertex from it is `area_doubled` for each of the three joins. -/
+theorem is_collapsed_width1 (t : Tri) (off : Thick.StrokeOffset) (hi : TriI32 t) :
+    t.isCollapsed 1 off = some (decide (t.areaDoubled ≤ 0)) :=
+  isCollapsed_width1 t off hi
+
+example : TriI32 ⟨⟨-5, -4⟩, ⟨-5, -1⟩, ⟨-1, -4⟩⟩ := by decide
+
+/-- For the `sorted_clockwise` triangle (the one `ScanlineIterator::new` passes on) that is
+`area_doubled == 0`: only colinear / coincident vertices collapse a one-pixel stroke. -/
+theorem is_collapsed_width1_sorted (t : Tri) (off : Thick.StrokeOffset) (hi : TriI32 t) :
+    t.sortedClockwise.isCollapsed 1 off = some (decide (t.areaDoubled = 0)) :=
+  isCollapsed_width1_sortedClockwise t off hi
+
+example : TriI32 ⟨⟨0, 0⟩, ⟨4, 6⟩, ⟨2, 3⟩⟩ ∧ (Tri.mk ⟨0, 0⟩ ⟨4, 6⟩ ⟨2, 3⟩).areaDoubled = 0 := by decide
+
+/-- **The model parameter `collapsedFlag1` of the aligned outline model
+(EG/Model/TriangleAligned.lean) IS the flag `ScanlineIntersections::new` computes at stroke width 1**
+(`triangle.is_collapsed(1, offset) && offset == StrokeOffset::Right`), for every alignment; the
+other fields are the ones passed in. -/
+theorem collapsed_flag_is_join_code (tc : Tri) (a : TriAlign) (hasFill : Bool) (y : Int)
+    (hi : TriI32 tc) (it : TriIntersections)
+    (h : TriIntersections.new tc 1 (alignOffset a) hasFill y = some it) :
+    it.isCollapsed = tc.toTriangle.collapsedFlag1 a ∧ it.triangle = tc ∧ it.strokeWidth = 1 ∧
+      it.strokeOffset = alignOffset a ∧ it.hasFill = hasFill := by
+  obtain ⟨_, h2, h3, h4, h5⟩ := new_isCollapsed_width1 tc _ hasFill y hi it h
+  exact ⟨new_isCollapsed_eq_flag tc a hasFill y hi it h, h2, h3, h4, h5⟩
+
+example : TriI32 ⟨⟨0, 0⟩, ⟨2, 3⟩, ⟨4, 6⟩⟩ ∧
+    (TriIntersections.new ⟨⟨0, 0⟩, ⟨2, 3⟩, ⟨4, 6⟩⟩ 1 (alignOffset .inside) false 0).isSome = true := by
+  decide
+
+/-- `alignOffset` is `StrokeOffset::from(StrokeAlignment)`. -/
+theorem alignOffset_eq : alignOffset .inside = StrokeAlignment.inside.toOffset ∧
+    alignOffset .center = StrokeAlignment.center.toOffset ∧
+    alignOffset .outside = StrokeAlignment.outside.toOffset := ⟨rfl, rfl, rfl⟩
+
+/-! ## The two transcriptions of the styled-triangle iterators at stroke width 1
+
+`EG.Joins.triPixels` (EG/Model/ThickTriangle.lean: every width and alignment, join code inlined;
+tied to the real `pixels()` by the `thick.triangle` stream) and `Triangle.outlinePixelsAligned`
+(EG/Model/TriangleAligned.lean: width 1, the join code replaced by its two proved values
+`skeletonSeg` / `collapsedFlag1`; tied to the real `pixels()` by the `tri.outline_al` stream: all
+ordered vertex triples of the unit grid with Inside and Outside alignment) transcribe the same Rust
+iterators. Their general equality is not proved; it is kernel-checked here on a sample (all three
+alignments; proper, colinear and coincident triangles, both orientations); evaluated (`#eval`, not
+part of the build) they agree on all 4096 vertex triples of a 4 x 4 grid x 3 alignments. -/
+
+/-- `StrokeAlignment` of the join model. -/
+def alignJ : TriAlign → StrokeAlignment
+  | .inside => .inside
+  | .center => .center
+  | .outside => .outside
+
+def sampleTriangles : List Triangle :=
+  [⟨⟨0, 0⟩, ⟨3, 1⟩, ⟨2, 4⟩⟩, ⟨⟨0, 0⟩, ⟨2, 4⟩, ⟨3, 1⟩⟩, ⟨⟨0, 0⟩, ⟨2, 3⟩, ⟨4, 6⟩⟩,
+   ⟨⟨4, 6⟩, ⟨0, 0⟩, ⟨2, 3⟩⟩, ⟨⟨1, 1⟩, ⟨1, 1⟩, ⟨4, 3⟩⟩, ⟨⟨2, -1⟩, ⟨2, -1⟩, ⟨2, -1⟩⟩]
+
+theorem aligned_outline_models_agree_on_sample :
+    ∀ t ∈ sampleTriangles, ∀ a ∈ [TriAlign.inside, TriAlign.center, TriAlign.outside],
+      triPixels ⟨t.v1, t.v2, t.v3⟩ ⟨none, some 7, 1, alignJ a⟩ =
+        some (t.outlinePixelsAligned 7 a) := by
+  decide +kernel
 
 end EG.C19.Joins
